@@ -600,12 +600,26 @@ func c18Proposal(spec c18Spec, res *core.CaseResult, verbose bool) {
 		res.Inconclusive = "not voting"
 		return
 	}
+	// in every second case a companion proposal of the same type ends in the same block, after this one, and
+	// passes (in both twins): what the failing proposal wrote must not ride along with it
+	var id2 uint64
+	if spec.Seed%2 == 0 {
+		var r2 chain.Result
+		if id2, r2 = fix.Propose(c, c.Users[2], []sdk.Msg{good(50)}, gp.MinDeposit, "c18 companion"); !r2.OK() {
+			res.Inconclusive = r2.ErrString()
+			return
+		}
+		res.Count("proposal_cases_with_companion", 1)
+	}
 	c.Next()
 	end := p.VotingEndTime.Add(time.Second)
 	run := func(opt govv1.VoteOption) (sdk.Context, govv1.Proposal) {
 		ctx := c.Branch()
 		for _, v := range c.Vals {
 			c.MsgOn(ctx, govv1.NewMsgVote(v.Operator.Acc(), id, opt, ""))
+			if id2 != 0 {
+				c.MsgOn(ctx, govv1.NewMsgVote(v.Operator.Acc(), id2, govv1.OptionYes, ""))
+			}
 		}
 		ectx := ctx.WithBlockTime(end).WithBlockHeight(c.Height + 1)
 		func() {
@@ -629,6 +643,14 @@ func c18Proposal(spec c18Spec, res *core.CaseResult, verbose bool) {
 	if pb.Status != govv1.StatusRejected {
 		res.Inconclusive = "twin not rejected"
 		return
+	}
+	if id2 != 0 {
+		for name, x := range map[string]sdk.Context{"failing": ca, "voted-down": cb} {
+			if p2, err := c.App.GovKeeper.Proposals.Get(x, id2); err != nil || p2.Status != govv1.StatusPassed {
+				res.Inconclusive = fmt.Sprintf("companion proposal did not pass in the %s twin (%v)", name, p2.Status)
+				return
+			}
+		}
 	}
 	res.Nontrivial = spec.K > 0 || spec.Kind != "error"
 	res.Count("twin_diffs", 1)
